@@ -295,6 +295,9 @@ class BaseKFACPreconditioner:
             compute_inverses = False  # Cannot be computed if no layers
         if compute_inverses:
             for name, layer in self._layers.values():
+                if layer.a_factor is None or layer.g_factor is None:
+                    # State saved before the factors were first computed
+                    continue
                 if get_rank() == self._assignment.inv_worker(name, 'A'):
                     layer.compute_a_inv(damping=self.damping)
                 if (
